@@ -24,7 +24,11 @@ func TestMain(m *testing.M) {
 			"result, error/no error, the panicked flag, and the final globals are identical. Generators are biased to functions with 0..12 parameters of mixed types called with integer and " +
 			"non-integer arguments, parameter mutation (=, ++, --), closures and nested literals over parameters, counted loops nested up to depth 10, loop variables shadowing other bindings, every way " +
 			"of leaving a loop (end, break, continue, return, error) and sessions of up to 40 top-level loops. Non-trivial: the register path is taken (a function called with an integer argument whose body uses it, or a " +
-			"'for i = n' loop) AND one of: a non-normal loop exit, > 8 integer bindings in one environment, a nested function literal in a rewritten body, >= 9 loops in the session; distinct by program text.",
+			"'for i = n' loop) AND one of: a non-normal loop exit, > 8 integer bindings in one environment, a nested function literal in a rewritten body, >= 9 loops in the session; distinct by program text. " +
+			"Two families of sessions built from templates cover what leaves a register: (loop-value) nests of 1..4 counted loops, in functions of 3..12 parameters and at top level, left through 'return V' or ending with V as the " +
+			"last body value where V is a loop variable as it is (or an expression over it), the function result / loop value then consumed by println, assignment, list, map, operator, call argument or the top-level echo; " +
+			"(library-args) integer parameters and counted-loop variables as they are as arguments of library functions (int, min, max, json, json_go, sprintf, str, abs, sqrt, pow, round, catch, first), alone, nested, in " +
+			"loop bounds, and as the left operand of an operator whose right operand writes the argument (=, ++, --). Non-trivial there: the leaving value is the bare loop variable / a bare variable reaches an ANY-typed argument.",
 		Assumptions: []string{
 			"type and info are never generated (excluded by the property); del(<integer parameter>) is documented as unsupported (tests/delete.gr) and not generated",
 			"the wording of error messages is not compared, only their presence",
